@@ -139,7 +139,19 @@ func (p *P) gEquality(rule string) {
 	// chain equality: same length and every tipset pairwise Equal
 	if fn := p.fn(rule, "gpbft.ECChain.Eq"); fn != nil {
 		eqs := callSinks(fn, "tipset comparison", "gpbft.TipSet.Equal")
-		if len(eqs) == 0 {
+		// idiom: slices.EqualFunc(a.TipSets, b.TipSets, (*TipSet).Equal) — length and pairwise comparison by construction
+		viaStd := false
+		for _, cs := range callSites(fn, false) {
+			if strings.HasPrefix(cs.Callee(), "slices.EqualFunc") && len(cs.Common.Args) == 3 {
+				a, b, f := cs.Arg(0), cs.Arg(1), cs.Arg(2)
+				if ((a == "$0.TipSets" && b == "$1.TipSets") || (a == "$1.TipSets" && b == "$0.TipSets")) && strings.Contains(f, "gpbft.Equal") {
+					viaStd = true
+				}
+			}
+		}
+		if viaStd && len(eqs) == 0 {
+			r.OK(rule, "gpbft.ECChain.Eq: every tipset is compared", p.c.Pos(fn.Pos()), "slices.EqualFunc over both tipset slices with TipSet.Equal")
+		} else if len(eqs) == 0 {
 			r.Fail(rule, "gpbft.ECChain.Eq: tipsets compared pairwise", p.c.Pos(fn.Pos()), "no TipSet.Equal call")
 		} else {
 			p.fullRangeLoop(rule, "gpbft.ECChain.Eq: every tipset is compared", eqs[0].Instr, func(c string) bool { return strings.Contains(c, "TipSet.Equal(") })
